@@ -55,12 +55,11 @@ Theorem C11_auto_order_partial : forall isdigit int_of fx, O_footnotes fx ->
 Proof. exact auto_order_sorted. Qed.
 Print Assumptions C11_auto_order_partial.
 
-(* PARTIAL (footnote_sort = True, at most 999 auto-numbered references - SortFootnotes uses the key
-   999 for "not referenced"): a referenced definition is numbered before any unreferenced one, so
-   together with the theorem above the k-th label referenced gets the k-th free number *)
+(* PARTIAL only in that it needs footnote_sort = True: a referenced definition is numbered before
+   any unreferenced one, for any number of references (code after the fix: commit, default sort
+   key len(ref_order)); with the theorem above: the k-th label referenced gets the k-th free number *)
 Theorem C11_referenced_first_partial : forall isdigit int_of fx, O_footnotes fx ->
   forall ft d r, run isdigit int_of fx true ft d = Ok r ->
-  (length (auto_ref_labels isdigit r) <= 999)%nat ->
   forall fa fb ka kb i,
     In fa (x_foots r) -> In fb (x_foots r) ->
     fo_num fa = Some ka -> fo_num fb = Some kb ->
@@ -69,6 +68,19 @@ Theorem C11_referenced_first_partial : forall isdigit int_of fx, O_footnotes fx 
     ka < kb.
 Proof. exact referenced_first. Qed.
 Print Assumptions C11_referenced_first_partial.
+
+(* the code before that fix used the constant 999: with 1000 references to z before the first
+   reference to a, the unreferenced u is numbered before a (witness built with [repeat]) *)
+Theorem C11_referenced_first_before_fix_refuted :
+  exists isdigit int_of ft d r fa fb ka kb i,
+    run_legacy isdigit int_of docutils_footnotes true ft d = Ok r /\
+    In fa (x_foots r) /\ In fb (x_foots r) /\
+    fo_num fa = Some ka /\ fo_num fb = Some kb /\
+    index_of (lbl fa) (auto_ref_labels isdigit r) = Some i /\
+    index_of (lbl fb) (auto_ref_labels isdigit r) = None /\
+    kb < ka.
+Proof. exact referenced_first_legacy_refuted. Qed.
+Print Assumptions C11_referenced_first_before_fix_refuted.
 
 (* REFUTED for footnote_sort = False: x[^b] y[^a] with definitions a, b numbers a = 1, b = 2
    although b is referenced first (SortFootnotes returns early under the same switch) *)
@@ -91,7 +103,7 @@ Proof. exact manual_keeps_number. Qed.
 Print Assumptions C11_manual_keeps_number.
 
 (* footnote_sort = True: the children of the document are the written blocks with every footnote
-   taken out, then one transition when configured (unless there is no footnote or the document
+   taken out at whatever depth it was nested (strip_top recurses through the containers), then one transition when configured (unless there is no footnote or the document
    consists of footnotes only), then all footnotes ... *)
 Theorem C11_collect_layout : forall isdigit int_of fx, O_footnotes fx ->
   forall ft d r, run isdigit int_of fx true ft d = Ok r ->
@@ -163,18 +175,18 @@ Theorem C11_transform_order :
 Proof. exact transform_order. Qed.
 Print Assumptions C11_transform_order.
 
-(* non-vacuity: x[^b] y[^a] z[^1] + definitions a, b, a block quote with [^1] and a second [^a],
+(* non-vacuity: x[^b] y[^a] z[^1] + definitions a, b, a container holding a nested container with [^1] and a second [^a],
    an unreferenced u; sorting on *)
 Example C11_example :
   let a := [97] in let b := [98] in let one := [49] in let u := [117] in
   let isdigit := fun s => str_eqb s one in
   let int_of := fun s => if str_eqb s one then Some 1 else if str_eqb s [50] then Some 2
                          else if str_eqb s [51] then Some 3 else if str_eqb s [52] then Some 4 else None in
-  let d := [TRefs [b; a; one]; TDef a 1 []; TDef b 2 []; TBox [IDef one 3 []; IDef a 4 []]; TDef u 5 []] in
+  let d := [BRefs [b; a; one]; BDef a 1 []; BDef b 2 []; BBox [BBox [BDef one 3 []]; BDef a 4 []]; BDef u 5 []] in
   match run isdigit int_of docutils_footnotes true true d with
   | Ok r =>
       map ro_text (x_refs r) = [Some [50]; Some [51]; Some [49]] /\
-      x_layout r = [LOther; LBox [LIMsg]; LTrans; LFoot one; LFoot b; LFoot a; LFoot u] /\
+      x_layout r = [LOther; LBox [LBox []; LMsg]; LTrans; LFoot one; LFoot b; LFoot a; LFoot u] /\
       x_warn r = [WDup a; WUnref u true]
   | Raise _ => False
   end.
